@@ -84,6 +84,30 @@ def shards(tier):
     return out
 
 
+def _pars_redundant(fst, src, path):
+    """Does `src` with the grouping parentheses of the node at `path` blanked out parse to the same tree? (reference for unpar())"""
+    from ..fstnav import node_at
+    from .. import extents as X
+    try:
+        n = node_at(fst.FST(src, 'exec'), [tuple(x) for x in path])
+        if isinstance(n.a, ast.Starred):
+            n = n.a.value.f
+        pl = n.pars()
+        if not getattr(pl, 'n', 0):
+            return True
+        S = X.Src(src)
+        ps, pe = S.off(pl.ln, pl.col), S.off(pl.end_ln, pl.end_col)
+        ns, ne = S.off(n.ln, n.col), S.off(n.end_ln, n.end_col)
+        out = list(src)
+        for a, b, t, _ in S.toks:
+            if (t == '(' and ps <= a < ns) or (t == ')' and ne <= a < pe):
+                out[a] = ' '
+        ref = ast.parse(''.join(out))
+        return O.dump(ref) == O.dump(ast.parse(src))
+    except Exception:  # noqa: BLE001
+        return False
+
+
 def describe_request(src, op):
     """Input-side facts about a request (pre-state source + request only) for known-finding selectors.
     tail_on_continuation_line_at_eof: the request deletes the trailing elements of an undelimited statement-level comma list
@@ -137,6 +161,11 @@ def run_shard(desc, tier, res):
     def on_state(root, pre, hist, cid, c2):
         res.traces += 1
         bad = live_vs_parse(root, 'Module')
+        if bad and hist[-1]['op'] == 'unpar' and not _pars_redundant(fst, pre[2], hist[-1]['path']):
+            # unpar() removes what it is told to, "no higher level parsability validation": parentheses that the source needs
+            # (line structure, precedence, 'return (yield)', '(x): int') are the caller's responsibility
+            res.outcomes['unpar-of-needed-parentheses-not-judged'] += 1
+            return False
         if bad:
             res.fail(cid, 'C01:source-does-not-parse' if bad.startswith('source does not parse') else 'C01:live-tree-differs-from-parse',
                      f'start={src0!r}\npre={pre[2]!r}\n{bad}',
